@@ -56,6 +56,7 @@ func genC05(seed uint64, r *rng.Rand) *Plan {
 				if g.R.Chance(0.15) {
 					o.TR = "to"
 				}
+				o.Filter = g.R.Chance(0.2)
 				ops = append(ops, o)
 			default:
 				o := g.SingleOp(ts.Name, g.KeyNear(ts.Splits, 4), kinds)
